@@ -1,3 +1,296 @@
 package main
 
-func genGrammar() {}
+import (
+	"fmt"
+	"go/ast"
+	"go/token"
+	"sort"
+	"strconv"
+	"strings"
+)
+
+// genGrammar reads the three package-level tables of parser/parser.go
+//
+//	var unaryOperators  = map[string]operator{ "not": {50, left}, ... }
+//	var binaryOperators = map[string]operator{ "or":  {10, left}, ... "**": {70, right} }
+//	var builtins        = map[string]builtin{  "len": {1}, ... }
+//
+// and writes coq/gen/GenGrammar.v, sorted by operator string.  Anything that is not a string key
+// with a {int, left|right} / {int} composite literal (positional or keyed) is reported in
+// grammar_unrecognised, which makes the bridge lemma of C11 fail.
+func genGrammar() {
+	f := parseFile("parser/parser.go")
+	var unrec []string
+
+	// map literal of a package-level `var name = map[string]T{...}`
+	mapLit := func(name string) *ast.CompositeLit {
+		if f == nil {
+			return nil
+		}
+		for _, d := range f.Decls {
+			gd, ok := d.(*ast.GenDecl)
+			if !ok || gd.Tok != token.VAR {
+				continue
+			}
+			for _, s := range gd.Specs {
+				vs := s.(*ast.ValueSpec)
+				for i, n := range vs.Names {
+					if n.Name == name && i < len(vs.Values) {
+						if cl, ok := vs.Values[i].(*ast.CompositeLit); ok {
+							if _, isMap := cl.Type.(*ast.MapType); isMap {
+								return cl
+							}
+						}
+					}
+				}
+			}
+		}
+		return nil
+	}
+
+	intLit := func(e ast.Expr) (int64, bool) {
+		neg := false
+		if u, ok := e.(*ast.UnaryExpr); ok && u.Op == token.SUB {
+			neg = true
+			e = u.X
+		}
+		bl, ok := e.(*ast.BasicLit)
+		if !ok || bl.Kind != token.INT {
+			return 0, false
+		}
+		v, err := strconv.ParseInt(bl.Value, 0, 64)
+		if err != nil {
+			return 0, false
+		}
+		if neg {
+			v = -v
+		}
+		return v, true
+	}
+
+	// fields of one entry value `{a, b}` or `{precedence: a, associativity: b}` in the given field order
+	fields := func(v ast.Expr, names []string) ([]ast.Expr, bool) {
+		cl, ok := v.(*ast.CompositeLit)
+		if !ok {
+			return nil, false
+		}
+		out := make([]ast.Expr, len(names))
+		keyed := false
+		for _, e := range cl.Elts {
+			if _, ok := e.(*ast.KeyValueExpr); ok {
+				keyed = true
+			}
+		}
+		if keyed {
+			for _, e := range cl.Elts {
+				kv, ok := e.(*ast.KeyValueExpr)
+				if !ok {
+					return nil, false
+				}
+				id, ok := kv.Key.(*ast.Ident)
+				if !ok {
+					return nil, false
+				}
+				found := false
+				for i, n := range names {
+					if n == id.Name {
+						out[i] = kv.Value
+						found = true
+					}
+				}
+				if !found {
+					return nil, false
+				}
+			}
+		} else {
+			if len(cl.Elts) != len(names) {
+				return nil, false
+			}
+			copy(out, cl.Elts)
+		}
+		for _, e := range out {
+			if e == nil {
+				return nil, false
+			}
+		}
+		return out, true
+	}
+
+	type opEnt struct {
+		name  string
+		prec  int64
+		right bool
+	}
+	readOps := func(name string) []opEnt {
+		cl := mapLit(name)
+		if cl == nil {
+			unrec = append(unrec, "missing table "+name)
+			return nil
+		}
+		var out []opEnt
+		seen := map[string]bool{}
+		for _, e := range cl.Elts {
+			kv, ok := e.(*ast.KeyValueExpr)
+			if !ok {
+				unrec = append(unrec, pos(e)+": entry of "+name)
+				continue
+			}
+			kl, ok := kv.Key.(*ast.BasicLit)
+			if !ok || kl.Kind != token.STRING {
+				unrec = append(unrec, pos(e)+": key of "+name)
+				continue
+			}
+			key, err := strconv.Unquote(kl.Value)
+			if err != nil {
+				unrec = append(unrec, pos(e)+": key of "+name)
+				continue
+			}
+			fs, ok := fields(kv.Value, []string{"precedence", "associativity"})
+			if !ok {
+				unrec = append(unrec, pos(e)+": value of "+name+"["+key+"]")
+				continue
+			}
+			p, ok1 := intLit(fs[0])
+			as, ok2 := fs[1].(*ast.Ident)
+			if !ok1 || !ok2 || (as.Name != "left" && as.Name != "right") {
+				unrec = append(unrec, pos(e)+": value of "+name+"["+key+"]")
+				continue
+			}
+			if seen[key] {
+				unrec = append(unrec, pos(e)+": duplicate key "+key)
+				continue
+			}
+			seen[key] = true
+			out = append(out, opEnt{key, p, as.Name == "right"})
+		}
+		sort.Slice(out, func(i, j int) bool { return out[i].name < out[j].name })
+		return out
+	}
+
+	// the constants `left associativity = iota + 1` / `right` must still be two distinct names
+	if f != nil {
+		okConst := false
+		for _, d := range f.Decls {
+			gd, ok := d.(*ast.GenDecl)
+			if !ok || gd.Tok != token.CONST {
+				continue
+			}
+			var names []string
+			for _, s := range gd.Specs {
+				for _, n := range s.(*ast.ValueSpec).Names {
+					names = append(names, n.Name)
+				}
+			}
+			if strings.Join(names, ",") == "left,right" {
+				okConst = true
+			}
+		}
+		if !okConst {
+			unrec = append(unrec, "associativity constants left,right")
+		}
+	}
+
+	un := readOps("unaryOperators")
+	bin := readOps("binaryOperators")
+
+	type biEnt struct {
+		name  string
+		arity int64
+	}
+	var bis []biEnt
+	if cl := mapLit("builtins"); cl != nil {
+		seen := map[string]bool{}
+		for _, e := range cl.Elts {
+			kv, ok := e.(*ast.KeyValueExpr)
+			if !ok {
+				unrec = append(unrec, pos(e)+": entry of builtins")
+				continue
+			}
+			kl, ok := kv.Key.(*ast.BasicLit)
+			if !ok || kl.Kind != token.STRING {
+				unrec = append(unrec, pos(e)+": key of builtins")
+				continue
+			}
+			key, err := strconv.Unquote(kl.Value)
+			if err != nil {
+				unrec = append(unrec, pos(e)+": key of builtins")
+				continue
+			}
+			fs, ok := fields(kv.Value, []string{"arity"})
+			if !ok {
+				unrec = append(unrec, pos(e)+": value of builtins["+key+"]")
+				continue
+			}
+			a, ok := intLit(fs[0])
+			if !ok || seen[key] {
+				unrec = append(unrec, pos(e)+": value of builtins["+key+"]")
+				continue
+			}
+			seen[key] = true
+			bis = append(bis, biEnt{key, a})
+		}
+		sort.Slice(bis, func(i, j int) bool { return bis[i].name < bis[j].name })
+	} else {
+		unrec = append(unrec, "missing table builtins")
+	}
+
+	z := func(v int64) string {
+		if v < 0 {
+			return fmt.Sprintf("(%d)", v)
+		}
+		return fmt.Sprintf("%d", v)
+	}
+	var b strings.Builder
+	b.WriteString("(* GENERATED by /verif/translator from parser/parser.go — do not edit *)\n")
+	b.WriteString("From Coq Require Import ZArith List String.\nImport ListNotations.\nOpen Scope Z_scope.\nOpen Scope string_scope.\n\n")
+	b.WriteString("(* unaryOperators: operator -> precedence *)\n")
+	b.WriteString("Definition gen_unary : list (string * Z) := [")
+	for i, e := range un {
+		if i > 0 {
+			b.WriteString(";")
+		}
+		fmt.Fprintf(&b, "\n  (%s, %s)", coqString(e.name), z(e.prec))
+	}
+	b.WriteString("].\n\n")
+	b.WriteString("(* unaryOperators: operators declared right-associative (the parser ignores the field) *)\n")
+	b.WriteString("Definition gen_unary_right : list string := [")
+	first := true
+	for _, e := range un {
+		if e.right {
+			if !first {
+				b.WriteString("; ")
+			}
+			first = false
+			b.WriteString(coqString(e.name))
+		}
+	}
+	b.WriteString("].\n\n")
+	b.WriteString("(* binaryOperators: operator -> (precedence, right-associative) *)\n")
+	b.WriteString("Definition gen_binary : list (string * (Z * bool)) := [")
+	for i, e := range bin {
+		if i > 0 {
+			b.WriteString(";")
+		}
+		fmt.Fprintf(&b, "\n  (%s, (%s, %v))", coqString(e.name), z(e.prec), e.right)
+	}
+	b.WriteString("].\n\n")
+	b.WriteString("(* builtins: name -> arity *)\n")
+	b.WriteString("Definition gen_builtins : list (string * Z) := [")
+	for i, e := range bis {
+		if i > 0 {
+			b.WriteString(";")
+		}
+		fmt.Fprintf(&b, "\n  (%s, %s)", coqString(e.name), z(e.arity))
+	}
+	b.WriteString("].\n\n")
+	sort.Strings(unrec)
+	b.WriteString("Definition grammar_unrecognised : list string := [")
+	for i, u := range unrec {
+		if i > 0 {
+			b.WriteString("; ")
+		}
+		b.WriteString(coqString(u))
+	}
+	b.WriteString("].\n")
+	writeIfChanged("GenGrammar.v", b.String())
+}
